@@ -1,5 +1,4 @@
 import MqttVerif.Conn.Lemmas.FrameP6b
-import MqttVerif.Conn.Lemmas.Resend
 /-!
 # Topic-alias containers: lookup algebra and the `TAS` consistency invariant (C13 helpers)
 -/
@@ -715,6 +714,7 @@ theorem quiet_push_notPub (c : C) (p : Pkt) (r : Option Nat) (h : NotPub p) : Qu
 theorem quiet_setPanic (c : C) (x : String) : Quiet c (c.setPanic x) := by quiet_frames
 theorem quiet_releaseIfUsed (c : C) (id : Nat) : Quiet c (releaseIfUsed c id) := by quiet_frames
 theorem quiet_sendPostProcess (c : C) : Quiet c (sendPostProcess c) := by quiet_frames
+theorem quiet_refuseSend (c : C) (e : Nat) (p : Pkt) : Quiet c (refuseSend c e p) := by quiet_frames
 theorem quiet_cancelTimers (c : C) : Quiet c (cancelTimers c) := by quiet_frames
 theorem quiet_refresh (c : C) : Quiet c (refreshPingreqRecv c) := by quiet_frames
 theorem quiet_psV3Simple (c : C) (p : Pkt) (h : NotPub p) : Quiet c (psV3Simple c p) := by quiet_frames
